@@ -89,6 +89,28 @@ def r2(ctx):
                     site = stray[0]
         if not ok and not uo:
             ok, site = _select_by_match(ctx, b, fld)
+        if not ok:
+            # the selection may live in a private helper of Link that returns the configuration to use: the helper selects
+            # (unwrap_or form or match form) and every configuration read here goes through its result
+            for bb, t in b.calls(re.compile(r"^turmoil::top::Link::\w+$")):
+                hb = ctx.w.bodies.get(t["f"])
+                if not hb or hb.argc != 2 or len(t["args"]) != 2 or not any(a.startswith("arg:2:") for a in Slicer(ctx.w).atoms(b, t["args"][1])):
+                    continue
+                hsel = _select_by_match(ctx, hb, fld, ret=True)[0]
+                for hbb, ht in hb.calls(re.compile(r"^std::option::Option::(unwrap_or|unwrap_or_else|map_or)$")):
+                    h0, h1 = Slicer(ctx.w).atoms(hb, ht["args"][0]), Slicer(ctx.w).atoms(hb, ht["args"][1])
+                    if f"field:{fld}" in h0 and any(a.startswith("arg:2:") for a in h1) and f"field:{fld}" not in h1 and ht["d"]["l"] == 0:
+                        hsel = True
+                if not hsel:
+                    continue
+                stray = []
+                for bb2, i2, s2 in b.all_stmts():
+                    pls = [op_place(o) for o in _ops(s2["r"])] + ([s2["r"]["p"]] if isinstance(s2["r"].get("p"), dict) else [])
+                    for pl in pls:
+                        if pl and any(f.startswith(("turmoil::config::Latency::", "turmoil::config::MessageLoss::")) for f in place_fields(pl)):
+                            if "call:" + t["f"] not in Slicer(ctx.w).atoms(b, {"c": {"l": pl["l"]}}):
+                                stray.append(s2["s"])
+                ok, site = (not stray), (stray[0] if stray else t["s"])
         ctx.inst(R, f"{fid}:select", ok, site, "uses the link override when present, else the global config" if ok else
                  f"`{fid}` does not (only) read the configuration selected by `link override or global`: a per-link setting is ignored")
     for fid, via in (("turmoil::top::Topology::set_link_message_latency", "turmoil::top::Link::latency"),
@@ -103,9 +125,18 @@ def r2(ctx):
         b = ctx.body(R, fid)
         if not b:
             continue
-        g = [t for bb, t in b.calls(re.compile(r"^std::option::Option::get_or_insert_with$")) if f"field:{fld}" in Slicer(ctx.w).atoms(b, t["args"][0])]
-        ctx.inst(R, f"{fid}:copy-on-first-use", bool(g), b.span, "override is created from the global config on first use, then kept" if g else
-                 "override accessor no longer uses get_or_insert_with on the link's Option")
+        g = [t for bb, t in b.calls(re.compile(r"^std::option::Option::(get_or_insert_with|get_or_insert)$")) if f"field:{fld}" in Slicer(ctx.w).atoms(b, t["args"][0])]
+        okc = bool(g)
+        if not g:
+            # the same spelled out: `match self.config.<x> { Some(ref mut c) => c, None => self.config.<x>.insert(global.clone()) }` -
+            # every write of the override (Option::insert / assignment) hangs on the None edge of a test of that override
+            ves = variant_edges(b, lambda p: fld in root_place(b, p)[1])
+            none_edges = [m["None"] for _, m, _, adt, _ in ves if "None" in m] or [els for _, m, els, adt, _ in ves if "Some" in m and "None" not in m]
+            wr = [bb for bb, t in b.calls(re.compile(r"^std::option::Option::(insert|replace)$")) if f"field:{fld}" in Slicer(ctx.w).atoms(b, t["args"][0])]
+            wr += [bb for bb, i, s2 in b.all_stmts() if i != "term" and place_last_field(s2["p"]) == fld]
+            okc = bool(wr) and bool(none_edges) and all(b.dominated_by_any(x, edges=none_edges) for x in wr)
+        ctx.inst(R, f"{fid}:copy-on-first-use", okc, b.span, "override is created from the global config on first use, then kept" if okc else
+                 "the override accessor does not create the override only when there is none (get_or_insert_with, or an insert on the None arm): an existing per-link setting is overwritten")
     # who may write an override: only the two accessors above (and so only the set_link_* setters that call them). A global setter that
     # also rewrote existing overrides would silently cancel a per-link setting made earlier
     # (config::Link is also the type of the global configuration: an override is a place below top::Link::config)
@@ -132,7 +163,7 @@ def r2(ctx):
     ctx.floor(R, 11)
 
 
-def _select_by_match(ctx, b, fld):
+def _select_by_match(ctx, b, fld, ret=False):
     """the same selection spelled as `match &self.config.<x> { Some(link) => link, None => global }` (or if-let): every read of a
     Latency / MessageLoss field goes through a reference that is the Some payload of the link's override, or the global argument
     taken only on the None edge of a test of that override"""
@@ -154,7 +185,8 @@ def _select_by_match(ctx, b, fld):
         if 1 <= l <= b.argc:
             return [("global" if l == 2 else "other", 0)]
         out = []
-        for bb, idx, s in b.defs().get(l, []):
+        ds = b.defs().get(l, [])
+        for bb, idx, s in ds:
             if idx == "term" or s["p"].get("p"):
                 out.append(("other", bb))
                 continue
@@ -165,13 +197,22 @@ def _select_by_match(ctx, b, fld):
             elif fld in root_place(b, pl)[1] and root_place(b, pl)[0] == 1:
                 out.append(("override", bb))
             elif not [e for e in (pl.get("p") or ()) if e != "*"]:
-                sub_ = sources(pl["l"], seen)
-                out += [(k, bb if k == "global" and pl["l"] == 2 else sb) for k, sb in sub_]
+                sub_ = sources(pl["l"], set(seen) if len(ds) > 1 else seen)
+                # the point of selection is where the reference is chosen: the assignment into a local that has one definition per
+                # alternative (a reborrow of `global` made earlier, e.g. as a call argument, selects nothing)
+                out += [(k, bb if (len(ds) > 1 or (k == "global" and pl["l"] == 2)) else sb) for k, sb in sub_]
             else:
                 out.append(("other", bb))
         return out
 
     kinds, bad_site = set(), None
+    if ret:
+        # a helper that *returns* the selected configuration: the sources of its return value
+        for kind, db in sources(0, set()):
+            kinds.add(kind)
+            if kind == "other" or (kind == "global" and not b.dominated_by_any(db, edges=none_edges)):
+                bad_site = b.span
+        return bad_site is None and "override" in kinds and "global" in kinds, bad_site or b.span
     for bb2, i2, s2 in b.all_stmts():
         pls = [op_place(o) for o in _ops(s2["r"])] + ([s2["r"]["p"]] if isinstance(s2["r"].get("p"), dict) else [])
         for pl in pls:
@@ -244,8 +285,18 @@ def r3(ctx):
     if tb:
         it = [bb for bb, tt in tb.calls(re.compile(r"^indexmap::IndexMap::values_mut$")) if "field:turmoil::top::Topology::links" in Slicer(ctx.w).atoms(tb, tt["args"][0])]
         lt = list(tb.calls("turmoil::top::Link::tick"))
+        inner = [(fb, bb2, t2) for fb in ctx.w.family(tb.id) if fb.id != tb.id for bb2, t2 in fb.calls("turmoil::top::Link::tick")]
         ok = bool(it) and len(lt) == 1
-        if ok:
+        if bool(it) and not lt and len(inner) == 1:
+            # `links.values_mut().for_each(|link| link.tick(rt.now()))`: the closure ticks unconditionally, it is handed to for_each on the
+            # unfiltered values_mut() iterator
+            fb, bb2, t2 = inner[0]
+            at = Slicer(ctx.w).atoms(fb, t2["args"][1])
+            fe_ = [t3 for bb3, t3 in tb.calls(re.compile(r"Iterator::for_each$")) if fb.id in closure_args(tb, t3)]
+            unfiltered = bool(fe_) and any(a.endswith("IndexMap::values_mut") for a in Slicer(ctx.w).atoms(tb, fe_[0]["args"][0]) if a.startswith("call:")) and \
+                not any(True for _ in tb.calls(re.compile(r"Iterator::(filter|filter_map|take|take_while|skip|skip_while|step_by|nth)$")))
+            ok = "call:turmoil::rt::Rt::now" in at and "field:turmoil::top::Topology::rt" in at and not always_passes(fb, [bb2]) and unfiltered
+        elif ok:
             bb, tt = lt[0]
             at = Slicer(ctx.w).atoms(tb, tt["args"][1])
             ok = "call:turmoil::rt::Rt::now" in at and "field:turmoil::top::Topology::rt" in at
